@@ -7,7 +7,6 @@ import (
 	"strings"
 	"testing"
 
-	modbus "github.com/aldas/go-modbus-client"
 	"github.com/aldas/go-modbus-client/packet"
 	"pgregory.net/rapid"
 
@@ -162,6 +161,15 @@ func prepare(c fragCase) (prepared, error) {
 	return p, nil
 }
 
+// errChain names the types of an error and of everything it unwraps to.
+func errChain(err error) string {
+	var parts []string
+	for e := err; e != nil && len(parts) < 8; e = errors.Unwrap(e) {
+		parts = append(parts, fmt.Sprintf("%T", e))
+	}
+	return strings.Join(parts, " -> ")
+}
+
 func judge(c fragCase, p prepared, o cli.Outcome) harness.Result {
 	f := cli.FramingOf(c.Kind)
 	labels := []string{"kind:" + c.Kind, fmt.Sprintf("fc%d", c.Req.FC), fmt.Sprintf("chunks:%d", min(len(c.Chunks), 4))}
@@ -245,8 +253,17 @@ func judge(c fragCase, p prepared, o cli.Outcome) harness.Result {
 				return harness.Fail("exception reply %x reported as %+v", reply, *excR)
 			}
 		}
-		var ce *modbus.ClientError
-		_ = errors.As(o.Err, &ce)
+		// "no matter how the transport splits the reply": the error for this delivery is built like the error for the same reply
+		// delivered whole in one read (same chain of error types down to the typed exception) - network clients
+		if !cli.IsSerial(c.Kind) && (len(c.Chunks) > 1 || c.EOF != 0 || gaps > 0 || len(c.Late) > 0) {
+			ref := cli.Run(cli.Scenario{Kind: c.Kind, Req: c.Req, Stream: reply, Events: []xport.Event{{Kind: "data", N: len(reply)}}, ExplicitParser: c.ExplicitParser})
+			if ref.Err != nil && !ref.Hung && ref.Panic == nil {
+				if a, b := errChain(o.Err), errChain(ref.Err); a != b {
+					return harness.Fail("exception reply %x delivered as chunks %v (gaps %v, eof %d, late %v) is reported as %s; the same reply delivered in one read is reported as %s", reply, c.Chunks, c.Gaps, c.EOF, c.Late, a, b)
+				}
+				labels = append(labels, "exception-compared-with-whole-delivery")
+			}
+		}
 		return harness.Result{NonTrivial: len(c.Chunks) >= 2, Labels: labels}
 	}
 	if o.Err != nil {
